@@ -125,22 +125,7 @@ def _ana_reset_index(ex, recv, args, kwargs, node):
 
 
 def same_table(a, b):
-  """a == b for table terms, stated argument-wise when both are applications
-  of the same ledger function (equal arguments give equal tables; the
-  row -> value maps are compared row by row, which keeps the obligation free
-  of lambda equalities).  Implies a == b."""
-  if (z3.is_app(a) and z3.is_app(b) and a.decl().eq(b.decl())
-      and a.decl().name() in ('FR_PIVOT_SUM', 'FR_RESET_INDEX')
-      and a.num_args() == b.num_args()):
-    parts = []
-    for x, y in zip(a.children(), b.children()):
-      if isinstance(x.sort(), z3.ArraySortRef) and x.sort() != fl.RowSet:
-        r = z3.Int('r!same')
-        parts.append(z3.ForAll([r], z3.Select(x, r) == z3.Select(y, r)))
-      else:
-        parts.append(same_table(x, y))
-    return z3.And(parts)
-  return a == b
+  return fl.same_term(a, b, ('FR_PIVOT_SUM', 'FR_RESET_INDEX'))
 
 
 def configured(o):
